@@ -327,6 +327,10 @@ def c15_d(ctx: Ctx):
     if not deep_ok:
         out.append(ctx.viol(R, sjw, sjw.node, "`deep` does not select the content comparator", construct=SJW + "|deep-comparator"))
     ci = ctx.prog.classes.get("signac.sync:_dircmp_deep")
+    if ci is None:
+        # moved to another module of the package (and imported from there): the class of that name wherever it lives
+        cands = [c for q, c in ctx.prog.classes.items() if q.endswith(":_dircmp_deep") and not c.module.is_dep]
+        ci = cands[0] if len(cands) == 1 else None
     k = "signac.sync:_dircmp_deep|methodmap"
     if ci is None:
         out.append(ctx.inc(R, None, None, "class _dircmp_deep not found", construct=k))
